@@ -186,9 +186,13 @@ class StepUnit(Unit):
 
     check_extent = True  # False for a nested loop: what it is handed is the subject of the enclosing loop's step obligation
 
+    expects_whiles = None  # number of `while` loops the decoder must have for this unit to apply (nested-loop units)
+
     def _loop_node(self):
         cls, fn, _ = self._fn()
         ws = [n for n in ast.walk(fn_node(fn)) if isinstance(n, ast.While)]
+        if self.expects_whiles is not None and len(ws) != self.expects_whiles:
+            return None  # the decoder was restructured: the enumerated-count contracts still decide it
         return ws[self.loop] if self.loop < len(ws) else None
 
     def run(self, X, case, a):
@@ -257,6 +261,9 @@ class StepUnit(Unit):
             # apply to it; the enumerated-count contracts of contracts.datain still decide the decoder
             yield "C04", "step-obligations-not-applicable (no stride while-loop in this decoder; enumerated descriptor counts only)", True
             return
+        if out.kind == "return" and out.value.get("noschema"):
+            yield "C04", "step-obligations-not-applicable (the loop walks an index instead of consuming its buffer; enumerated descriptor counts only)", True
+            return
         if out.kind != "return" or not out.value.get("reached"):
             return
         info = out.value
@@ -309,7 +316,7 @@ class StepUnit(Unit):
         from pyvc import loops
 
         node = self._loop_node()
-        if node is None:
+        if node is None or loops.loop_buffer_name(node.test) is None:
             return
         ok, why = loops.schema_check(node)
         yield "C04", "exit:loop-is-in-the-stride-schema (%s)" % why, ok
@@ -453,6 +460,7 @@ class ResDescriptorsStep(StepUnit):
     """inner loop of READ ELEMENT STATUS: the element descriptors of one element status page.  Element type, volume
     tag flags and ELEMENT DESCRIPTOR LENGTH come from the page header the enclosing iteration decoded (arbitrary here)"""
 
+    expects_whiles = 2
     name = "decode/ReadElementStatus:descriptors:step"
     bounded_unit = "decode/ReadElementStatus"
     decoder = ("scsi_cdb_readelementstatus", "ReadElementStatus", "unmarshall_datain")
@@ -501,6 +509,7 @@ class ResPagesStep(StepUnit):
     runs over the BYTE COUNT OF DESCRIPTOR DATA AVAILABLE bytes after the 8-byte page header with this page's element
     type, volume tag flags and ELEMENT DESCRIPTOR LENGTH"""
 
+    expects_whiles = 2
     name = "decode/ReadElementStatus:pages:step"
     bounded_unit = "decode/ReadElementStatus"
     decoder = ("scsi_cdb_readelementstatus", "ReadElementStatus", "unmarshall_datain")
@@ -533,6 +542,7 @@ class ResPagesStep(StepUnit):
 class RtpgPortsStep(StepUnit):
     """inner loop of REPORT TARGET PORT GROUPS: the target port descriptors of one group"""
 
+    expects_whiles = 2
     name = "decode/ReportTargetPortGroups:ports:step"
     bounded_unit = "decode/ReportTargetPortGroups"
     header = 4
@@ -554,6 +564,7 @@ class RtpgGroupsStep(StepUnit):
     """outer loop of REPORT TARGET PORT GROUPS; the inner loop is replaced by its contract: it runs over the
     TARGET PORT COUNT x 4 bytes that follow the 8-byte group descriptor and leaves the buffer after them"""
 
+    expects_whiles = 2
     name = "decode/ReportTargetPortGroups:groups:step"
     bounded_unit = "decode/ReportTargetPortGroups"
     header = 4
